@@ -154,6 +154,7 @@ def run_http_case(form, coll, ns, name, value):
         others = {(c, n_, p): h.propfind(c, n_, p) for (c, n_, p, k) in HTTP_PROPS if (c, n_, p) != (coll, ns, name)}
         others[(OTHER, ns, name)] = h.propfind(OTHER, ns, name)
         what = f"PROPPATCH {coll} set {name}={value!r}"
+        h.propfind(coll, ns, name)   # read first (same server process, same cached store object)
         st = h.proppatch(coll, ns, name, value)
         if st != 200:
             return None if st in (403, 409, 422, 507) else f"{what} -> status {st} for the property"   # refused is not success
@@ -219,6 +220,7 @@ def run_case(backend, prop, value):
         s1.import_one("m.ics", "text/calendar", [ICS])
         members_before = sorted(s1.iter_with_etag())
         other_before = getter(s2, prop)
+        getter(s1, prop)   # a read before the write: whatever a getter may remember must not outlive the next set
         try:
             getattr(s1, "set_" + prop)(value)
         except Exception as e:
